@@ -9,6 +9,7 @@ import (
 	"go/types"
 	"regexp"
 	"sort"
+	"strconv"
 	"strings"
 
 	"golang.org/x/tools/go/packages"
@@ -620,6 +621,52 @@ func c05MixedIndent(c *Ctx, lx *lexerModel) {
 	// a panic ends the path (noReturn), so any return reached with S and T means the panic was skipped
 	fs := runEVT(w, f, r)
 	if !sawArms["space"] || !sawArms["tab"] {
+		// the counting form: spaces := strings.Count(text, " "); tabs := strings.Count(text, "\t"); if spaces > 0 && tabs > 0 { panic }
+		// as a top-level statement that precedes every return
+		mx := w.expander(f)
+		isCountOf := func(e ast.Expr, ch string) bool {
+			s := mx.str(e)
+			return strings.HasPrefix(s, "strings.Count(") && strings.HasSuffix(s, ",const:\""+ch+"\")") || strings.HasPrefix(s, "strings.Count(") && strings.HasSuffix(s, ","+strconv.Quote(ch)+")")
+		}
+		positive := func(e ast.Expr, ch string) bool {
+			b, ok := unparen(e).(*ast.BinaryExpr)
+			if !ok {
+				return false
+			}
+			tv, okc := info.Types[b.Y]
+			if !okc || tv.Value == nil {
+				return false
+			}
+			v := tv.Value.ExactString()
+			return isCountOf(b.X, ch) && (b.Op == token.GTR && v == "0" || b.Op == token.NEQ && v == "0" || b.Op == token.GEQ && v == "1")
+		}
+		guardAt, firstRet := token.NoPos, token.NoPos
+		for _, st := range f.Body.List {
+			if is, ok := st.(*ast.IfStmt); ok && is.Init == nil && guardAt == token.NoPos {
+				if b, ok := unparen(is.Cond).(*ast.BinaryExpr); ok && b.Op == token.LAND {
+					if (positive(b.X, " ") && positive(b.Y, "\t") || positive(b.X, "\t") && positive(b.Y, " ")) && len(is.Body.List) > 0 {
+						if es, ok := is.Body.List[0].(*ast.ExprStmt); ok {
+							if call, ok := es.X.(*ast.CallExpr); ok && isBuiltin(info, call, "panic") {
+								guardAt = is.Pos()
+							}
+						}
+					}
+				}
+			}
+			ast.Inspect(st, func(n ast.Node) bool {
+				if _, isLit := n.(*ast.FuncLit); isLit {
+					return false
+				}
+				if r, ok := n.(*ast.ReturnStmt); ok && firstRet == token.NoPos {
+					firstRet = r.Pos()
+				}
+				return true
+			})
+		}
+		if guardAt != token.NoPos && (firstRet == token.NoPos || guardAt < firstRet) {
+			c.ob("C05.R2", f.Name+"/mixed-indentation", w.Pos(guardAt), true, "the function panics when the count of spaces and the count of tabs are both positive, before any return (the panic is turned into an error by C05.R1)")
+			return
+		}
 		c.undecided("C05.R2", "the width-measuring function has no branch taken for ' ' and none for '\\t'")
 		return
 	}
